@@ -445,6 +445,8 @@ class ExclusionBase(metaclass=ABCMeta):
             point (PointBase): The cycle point to check.
 
         """
+        if point is None:
+            return False
         if point in self.exclusion_points:
             return True
         if any(seq.is_valid(point) for seq in self.exclusion_sequences):
